@@ -367,6 +367,44 @@ Section Proofs.
     handle_call tbl acts c id action payload = [EvError id (map code_name codes) None].
   Proof. intros Hl Hs Hv. unfold handle_call. rewrite Hl, Hs, Hv. reflexivity. Qed.
 
+  (* C04: a CALLRESULT is written only if the route skips validation or the serialised result
+     passed validation against the response schema of that action; what is written is that payload *)
+  Theorem result_guard c id action payload w :
+    In (EvResult id w) (handle_call tbl acts c id action payload) ->
+    exists a r h p obj,
+      lookup_route c action = Some (a, r) /\ r_on r = Some h /\
+      h_run h (c2s_keys p) (uid_for (h_sig h) id) = HRet obj /\
+      ((eff_skip r = true /\ w = encode (s2c_keys (remove_nones obj))) \/
+       (eff_skip r = false /\ exists w', validate tbl (c_ver c) MCallResult a (s2c_keys (remove_nones obj)) = VAccept w'
+                                         /\ w = encode w')).
+  Proof.
+    unfold handle_call. destruct (lookup_route c action) as [[a r]|] eqn:Hl.
+    2:{ intros [H|[]]; discriminate. }
+    destruct (eff_skip r) eqn:Hs.
+    - destruct (r_on r) as [h|] eqn:Hon; [|intros [H|[]]; discriminate].
+      destruct (binds (h_sig h) (c2s_keys payload)); simpl; [|intros [H|[]]; discriminate].
+      intros [H|H]; [discriminate|].
+      destruct (h_run h (c2s_keys payload) _) as [obj|code d x| |] eqn:Hr; try (destruct H as [H|[]]; discriminate).
+      destruct H as [H|H].
+      + injection H as <-. exists a, r, h, payload, obj. split; [reflexivity|]. split; [exact Hon|]. split; [exact Hr|].
+        left. split; [exact Hs | reflexivity].
+      + exfalso. unfold after_events in H. destruct (r_after r) as [k|]; [destruct (binds _ _)|]; simpl in H;
+          try contradiction; destruct H as [H|[]]; discriminate.
+    - destruct (validate tbl (c_ver c) MCall a payload) as [p|codes mc| |];
+        try (destruct mc); try (intros [H|[]]; discriminate).
+      destruct (r_on r) as [h|] eqn:Hon; [|intros [H|[]]; discriminate].
+      destruct (binds (h_sig h) (c2s_keys p)); simpl; [|intros [H|[]]; discriminate].
+      intros [H|H]; [discriminate|].
+      destruct (h_run h (c2s_keys p) _) as [obj|code d x| |] eqn:Hr; try (destruct H as [H|[]]; discriminate).
+      destruct (validate tbl (c_ver c) MCallResult a (s2c_keys (remove_nones obj))) as [w'|codes2 mc2| |] eqn:Ev2;
+        try (destruct mc2); try (destruct H as [H|[]]; discriminate).
+      destruct H as [H|H].
+      + injection H as <-. exists a, r, h, p, obj. split; [reflexivity|]. split; [exact Hon|]. split; [exact Hr|].
+        right. split; [exact Hs|]. exists w'. split; [exact Ev2 | reflexivity].
+      + exfalso. unfold after_events in H. destruct (r_after r) as [k|]; [destruct (binds _ _)|]; simpl in H;
+          try contradiction; destruct H as [H|[]]; discriminate.
+  Qed.
+
   (* ---------- C16: only the route of the action itself matters ---------- *)
   Theorem route_scope c c' id action payload :
     c_ver c = c_ver c' -> lookup_route c action = lookup_route c' action ->
